@@ -461,6 +461,23 @@ fn check_private_vector(prop: &str, w: &PrivW, slots: &[Slot], pre: &[D4], rep: 
     }
     let replay = || json!({"engine":"cso-private-wrapper","n":n,"family":family,"children":vec_json(&jslots),
         "preimages": prb.iter().map(|p| json!(canon(p))).collect::<Vec<_>>()});
+    // Child inputs that the wrapper ties together with copy constraints (the asset ids) are ONE variable in the
+    // wrapper-only form: a supplied vector that pins them differently contradicts a copy constraint, i.e. the circuit
+    // rejects the SUPPLIED vector. That is itself an acceptance verdict and is compared with the rule; afterwards the
+    // oracles continue on the vector that was actually evaluated (read back above).
+    if !run.conflicts.is_empty() && ch != pis_of(slots) {
+        rep.count("supplied_vector_contradicts_a_copy_constraint(rejected)");
+        if prop == "C07" {
+            let supplied_ok = priv_model_accept(slots);
+            rep.nontrivial(&("copy-reject", family.to_string(), pis_of(slots).iter().map(|c| u64s(c)).collect::<Vec<_>>()));
+            if supplied_ok.is_ok() && slots.iter().all(|s| !s.is_real() || attainable(s)) {
+                rep.violation("private-wrapper acceptance / copy constraint rejects an allowed vector",
+                    &format!("private-batch wrapper (N={n}) ties child inputs together that the acceptance rule leaves free: a vector the rule allows contradicts a copy constraint"),
+                    json!({"engine":"cso-private-wrapper","n":n,"family":family,"children":vec_json(slots),
+                        "conflicts": run.conflicts.iter().map(|c| json!({"target": format!("{:?}", c.target), "kept": u(c.kept), "dropped": u(c.dropped)})).collect::<Vec<_>>()}));
+            }
+        }
+    }
     match prop {
         "C06" | "C34x" => {
             if acc {
@@ -1063,6 +1080,19 @@ fn check_public_vector(prop: &str, w: &PubW, inners: &[Vec<F>], addr: &D4, rep: 
     let fp = (family.to_string(), jin.iter().map(|c| u64s(c)).collect::<Vec<_>>(), canon(&jaddr));
     let replay = || json!({"engine":"cso-public-wrapper","m":m,"n":n,"family":family,"inners": jin.iter().map(|c| u64s(c)).collect::<Vec<_>>(), "address": canon(&jaddr)});
     rep.count(if acc { "accepted" } else { "rejected" });
+    // same as in the private wrapper: a supplied vector that contradicts a copy constraint is rejected as supplied
+    if !run.conflicts.is_empty() && jin.as_slice() != inners {
+        rep.count("supplied_vector_contradicts_a_copy_constraint(rejected)");
+        if prop == "C13" {
+            rep.nontrivial(&("copy-reject", family.to_string(), inners.iter().map(|c| u64s(c)).collect::<Vec<_>>()));
+            if pub_model_accept(inners) {
+                rep.violation("public-wrapper acceptance / copy constraint rejects an allowed vector",
+                    &format!("public-batch wrapper (M={m},N={n}) ties inner inputs together that the acceptance rule leaves free: a vector the rule allows contradicts a copy constraint"),
+                    json!({"engine":"cso-public-wrapper","m":m,"n":n,"family":family,"inners": inners.iter().map(|c| u64s(c)).collect::<Vec<_>>(),
+                        "conflicts": run.conflicts.iter().map(|c| json!({"target": format!("{:?}", c.target), "kept": u(c.kept), "dropped": u(c.dropped)})).collect::<Vec<_>>()}));
+            }
+        }
+    }
     match prop {
         "C12" => {
             if acc {
